@@ -200,6 +200,7 @@ class Pre:
 
 def build(ctx, cfg):
     N = cfg["N"]
+    ctx.allow_realise = True  # cell labels are node ids of a small universe
     shape = tuple(cfg["shape"])  # (T, *spatial)
     Tn = shape[0]
     ndim = len(shape)
